@@ -69,10 +69,7 @@ def rule_process(rep):
         fn = trait_fn(facts, fname)
         wave_in, maskp = [p["name"] for p in fn["params"]]
         st = fn["body"]["stmts"]
-        env = {}
-        for s in st:
-            if s["k"] == "let" and s["pat"]["k"] == "pident" and s.get("init") is not None:
-                env[s["pat"]["name"]] = s["init"]
+        env = ir.let_env(fn, st)
         key = "Resampler::" + fname
         rets = [x for x in walk(fn["body"]) if x.get("k") == "return"]
         rep.ob(R, key + "/always-calls-core", not rets,
@@ -138,10 +135,7 @@ def rule_partial(rep):
     fn = trait_fn(facts, "process_partial_into_buffer")
     wave_in, wave_out, maskp = [p["name"] for p in fn["params"]]
     st = fn["body"]["stmts"]
-    env = {}
-    for s in st:
-        if s["k"] == "let" and s["pat"]["k"] == "pident" and s.get("init") is not None:
-            env[s["pat"]["name"]] = s["init"]
+    env = ir.let_env(fn, st)
     rets = [x for x in walk(fn["body"]) if x.get("k") == "return"]
     rep.ob(R, "always-calls-core", not rets, "process_partial_into_buffer can return early (line %s) without calling process_into_buffer" % [x.get("ln") for x in rets], loc(fn))
     frames = [n for n, v in env.items() if self_call(v, "input_frames_next")]
